@@ -43,7 +43,7 @@ func c10Prop(ws, conf []int) bool {
 }
 
 func c10Scripted(c *Ctx) {
-	c.Cases("hist", c.N(250, 8000), func(i int, r *rand.Rand) {
+	c.Cases("hist", c.N(1000, 30000), func(i int, r *rand.Rand) {
 		backoff := pick(r, []time.Duration{time.Second, 10 * time.Second, time.Minute})
 		freeze(baseTime.Add(time.Duration(r.Int64N(1e9))))
 		defer unfreeze()
@@ -445,7 +445,7 @@ func sscanHost(h string, idx *int) (int, error) {
 
 // c10CodeMeter: the default meters (real ratio counters), failing backends; range, back-off and restore invariants only.
 func c10CodeMeter(c *Ctx) {
-	c.Cases("codemeter", c.N(60, 1500), func(i int, r *rand.Rand) {
+	c.Cases("codemeter", c.N(200, 5000), func(i int, r *rand.Rand) {
 		backoff := pick(r, []time.Duration{time.Second, 10 * time.Second})
 		freeze(baseTime)
 		defer unfreeze()
